@@ -998,7 +998,7 @@ def call_shape_phase(chk, rng, n):
                                '"(unclosed"', "'x)'", "{'k': (1, 2)}['k'][0]"])
         vals_special = False
         pos_vals = [argval() for _ in range(npos)]
-        kw_vals = [argval() for _ in kws]
+        kw_vals = [rng.choice(["None", "nothing"]) if rng.random() < 0.2 and "p + 1" not in sig else argval() for _ in kws]
         vals_special = any(not v.isdigit() for v in pos_vals + kw_vals)
         # a string literal with an unbalanced parenthesis: both sides split the call with quote-unaware parenthesis scans,
         # so the compiler may refuse such a call (a restriction of the language, not a binding failure) - but if it
